@@ -14,6 +14,8 @@ import (
 	"fmt"
 	"math/rand"
 	"os"
+	"runtime"
+	"time"
 
 	"github.com/smart-core-os/sc-golang/verifharness/lib"
 )
@@ -29,11 +31,14 @@ func main() {
 		"EXHAUSTIVE: member counts 0..4 (thorough: 0..5) x every ok/fail assignment x every completion order (permutation) x every strategy "+
 			"through group.Execute (Unspecified, All, Most, Any, One, Fast, Race, an out-of-range value) and through the strategies' own functions "+
 			"(ExecuteAll/Most/Any/One/Fast/Race, ExecuteUpTo with every allowedErrors in -1..n); members are gated and released in the chosen order; "+
+			"and, for 1..3 members through group.Execute with the six strategies, the same with the failing members' errors taken from each of 9 further error classes "+
+			"(context.Canceled / DeadlineExceeded of the member's own, wrapped ones, gRPC status Canceled/DeadlineExceeded/Unavailable, a net.Error-like timeout, io.EOF) while the group's context is alive; "+
 			"compared: result slice or (msg,index,error), which error, the point at which the call returned, the members' context state after each completion, "+
 			"what each member saw, which members were started, goroutines left. non-trivial = n >= 1; distinct by full input")
 	exh.Exhaustive = true
 	rnd := res.Tie("group-random", "K1",
-		"random from the seeded PRNG: 0..8 members; each returns (msg|nil, err|nil) in all four combinations with repeated ids; "+
+		"random from the seeded PRNG: 0..8 members; each returns (msg|nil, err|nil) in all four combinations with repeated ids; half of the errors are plain, the others of a random class "+
+			"(the member's own context.Canceled/DeadlineExceeded, wrapped, gRPC status, net timeout, io.EOF); "+
 			"~40% are cancellation-aware (return a different response when they find their context cancelled); the caller's context is cancelled after a random "+
 			"number of completions in ~25% of cases; random completion order, strategy, API and allowedErrors in -2..n+1. non-trivial = n >= 2; distinct by full input")
 	mon := res.Monitor("strategy-contracts",
@@ -68,8 +73,21 @@ func main() {
 		answers = nil
 	}
 
+	// Scheduling of the harness process.  Every observation is made at a point of quiescence found by
+	// stop-the-world goroutine dumps (quiet.go); with many Ps on a loaded machine each dump costs a
+	// world-stop across all of them (measured: 13.6k cases take 6 s on one P and 35-65 s on 4-16 Ps while
+	// other checks run).  The schedules the harness realises are serial by construction (release one
+	// member, wait until nothing can move), so the bulk runs on one P; the last tenth of the random cases
+	// runs on 4 Ps so that the goroutines of executeEach also really run in parallel.
+	prevProcs := runtime.GOMAXPROCS(1)
+	defer runtime.GOMAXPROCS(prevProcs)
+	parallelFrom := len(cases) - f.N(300, 6000)
+	t0 := time.Now()
 	leaks := map[string]int{}
 	for i, c := range cases {
+		if i == parallelFrom {
+			runtime.GOMAXPROCS(4)
+		}
 		if leaks[c.fn()] >= 25 {
 			// every leaked goroutine stays in all later snapshots; after 25 leaking cases of one entry
 			// point (the run has failed on it anyway) its remaining cases are skipped to keep the run short
@@ -107,6 +125,11 @@ func main() {
 		}
 		t.Count("strategy:" + c.API + "/" + c.Strat)
 		t.Count(fmt.Sprintf("n=%d", c.n()))
+		for _, b := range c.Behs {
+			if b.Normal.Err != 0 {
+				t.Count("member-error-class:" + errClassOf(b.Normal.Err))
+			}
+		}
 		switch {
 		case o.Panic != "":
 			t.Count("outcome:panic")
@@ -126,7 +149,15 @@ func main() {
 	if answers == nil {
 		drv = nil
 	}
+	fmt.Fprintf(os.Stderr, "c17: %d gated pkg/group cases in %v\n", len(cases), time.Since(t0).Round(time.Millisecond))
+	t0 = time.Now()
+	runtime.GOMAXPROCS(1)
+	runGatedAdapters(f, res, drv, rng)
+	fmt.Fprintf(os.Stderr, "c17: Group adapters (gated members) in %v\n", time.Since(t0).Round(time.Millisecond))
+	t0 = time.Now()
+	runtime.GOMAXPROCS(4)
 	runAdapters(f, res, drv)
+	fmt.Fprintf(os.Stderr, "c17: Group adapters (model servers) in %v\n", time.Since(t0).Round(time.Millisecond))
 	if err := res.Write(f.Out); err != nil {
 		lib.Fatal(err)
 	}
@@ -195,7 +226,38 @@ func exhaustiveCases(f lib.Flags) []tcase {
 			}
 		}
 	}
+	// every class of member error x every strategy: failing members fail with an error of the class (their own
+	// context errors, wrapped, status, timeout, EOF) while the group's context is alive
+	for n := 1; n <= 3; n++ {
+		for _, st := range []string{"all", "most", "any", "one", "fast", "race"} {
+			for class := 1; class < ecCount; class++ {
+				for bits := 1; bits < 1<<n; bits++ {
+					behs := make([]beh, n)
+					for i := range behs {
+						if bits>>i&1 == 1 {
+							behs[i] = beh{Normal: resp{Err: errNum(class, i+1)}}
+						} else {
+							behs[i] = beh{Normal: resp{Msg: i + 1}}
+						}
+					}
+					for _, p := range perms(n) {
+						out = append(out, tcase{API: "x", Strat: st, Behs: behs, Order: p, PCancel: -1})
+					}
+				}
+			}
+		}
+	}
 	return out
+}
+
+// randomErr: an error of a random class (half of them plain, the others spread over every class of
+// makeErr: the members' own context errors, wrapped ones, status errors, timeouts, io.EOF).
+func randomErr(r *rand.Rand, ids int) int {
+	class := ecPlain
+	if r.Intn(2) == 0 {
+		class = 1 + r.Intn(ecCount-1)
+	}
+	return errNum(class, 1+r.Intn(ids))
 }
 
 func randomResp(r *rand.Rand, ids int) resp {
@@ -203,9 +265,9 @@ func randomResp(r *rand.Rand, ids int) resp {
 	case x < 42:
 		return resp{Msg: 1 + r.Intn(ids)}
 	case x < 80:
-		return resp{Err: 1 + r.Intn(ids)}
+		return resp{Err: randomErr(r, ids)}
 	case x < 90:
-		return resp{Msg: 1 + r.Intn(ids), Err: 1 + r.Intn(ids)}
+		return resp{Msg: 1 + r.Intn(ids), Err: randomErr(r, ids)}
 	default:
 		return resp{}
 	}
@@ -222,16 +284,19 @@ func randomCase(r *rand.Rand) tcase {
 	for i := range c.Behs {
 		b := beh{Normal: randomResp(r, ids)}
 		if failBias == 0 && r.Intn(2) == 0 {
-			b.Normal = resp{Err: 1 + r.Intn(ids)}
+			b.Normal = resp{Err: randomErr(r, ids)}
 		}
 		if failBias == 1 && r.Intn(2) == 0 {
 			b.Normal = resp{Msg: 1 + r.Intn(ids)}
 		}
 		if r.Intn(100) < 40 {
 			b.Aware = true
-			if r.Intn(4) == 0 {
+			switch x := r.Intn(8); {
+			case x < 2:
 				b.OnCancel = randomResp(r, ids+3)
-			} else {
+			case x < 5:
+				b.OnCancel = resp{Err: errNum(ecCanceled, 0)} // what a real member does: return ctx.Err()
+			default:
 				b.OnCancel = resp{Err: ids + 1 + r.Intn(3)}
 			}
 		}
@@ -264,6 +329,27 @@ func replay(f lib.Flags) int {
 	}
 	var probe struct {
 		Trait string `json:"trait"`
+		Gated bool   `json:"gated"`
+	}
+	if json.Unmarshal(b, &probe) == nil && probe.Gated {
+		g := gcase{PCancel: -1}
+		if err := json.Unmarshal(b, &g); err != nil || len(g.Order) != len(g.Behs) {
+			fmt.Println("replay: input is not a gated C17 adapter case:", string(b))
+			return 2
+		}
+		t := g.tcase()
+		o := runCase(t)
+		fmt.Printf("replay %s\n  -> %s\n", g.line(), o.canon(t))
+		m := lib.NewMonitor("replay", "")
+		gadapterMonitor(m, g, o)
+		for _, v := range m.Violations {
+			fmt.Printf("STILL FAILS %s: %s (expected %s, observed %s)\n", v.Signature, v.What, v.Expected, v.Observed)
+		}
+		if len(m.Violations) > 0 {
+			return 1
+		}
+		fmt.Println("replay: property holds on this input now")
+		return 0
 	}
 	if json.Unmarshal(b, &probe) == nil && probe.Trait != "" {
 		var ac acase
